@@ -172,6 +172,27 @@ theorem intro_reaches_after_churn_partial (c : Cfg) (hp : boxedP c = true) : all
     empty), R's walk reaches P, the answer returns, both are verified at each other again. -/
 theorem intro_reaches_after_restart_partial (c : Cfg) : restartOk c = true := of_all tableM c
 
+/-- the introducer is the tracker service (scripts/tracker_service.py: the production bootstrap server), which answers
+    old-style requests of any prefix and hands the requester's prefix to create_introduction_response: response AND
+    puncture request travel under the requester's prefix, the introduced peer's overlay receives the puncture request
+    and punctures; same conclusion as `intro_reaches_partial` -/
+theorem intro_reaches_via_tracker_partial (c : Cfg) (h : c.newStyle = false) : allOkW c (prehistoryTracker c) = true :=
+  List.all_eq_true.mp tableN c (by simp [oldCfgs, mem_allCfgs, h])
+example : ((prehistoryTracker ⟨.none, .none, .diff, false⟩).nodes[0]?.map (·.isTracker)) = some true := by decide +kernel
+
+/-- the peer limit counts the peers of the OVERLAY: an introduced peer that runs a second overlay with further peers on
+    the same Network, and whose overlay 0 holds exactly max_peers peers, still answers the requester's request -/
+theorem intro_reaches_at_peer_limit_of_introduced_partial (c : Cfg) : allOkW c (prePeerLimit c) = true :=
+  of_all tableN2 c
+example : ((prePeerLimit ⟨.none, .none, .diff, false⟩).nodes[2]?.map (fun n => (n.peers.length, (n.getPeers 0).length, n.maxPeers))) =
+    some (2, 1, 1) := by decide +kernel
+
+/-- the contact attempt made by the stock RandomWalk strategy (node timeout 3 s, window 5): both handed-out addresses
+    are probed one second apart; when the unanswered probe times out its address is recognised as an address of the
+    (meanwhile verified) introduced peer — `get_verified_by_address` matches the LAN slot too — so `remove_by_address` is
+    not called and both are STILL verified at each other after the time-outs have been processed -/
+theorem verified_peer_survives_probe_timeout_partial (c : Cfg) : strategyOk c = true := of_all tableO c
+
 /-! ## reachable states outside the tables in which the unchanged code FAILS (known findings, witnesses) — not exhaustive -/
 
 /-- KNOWN FINDING (a), negation of the full statement: R and P behind one box (both port-restricted, old style, the
